@@ -131,6 +131,10 @@ class MathSimplification:
             allvars = set()
             for blit in newbody:
                 allvars.update(set(collect_ast(blit, "Variable")))
+            for blit in gb.equalities:  # also the variables inside the aggregates that are simplified
+                if blit.ast_type == ASTType.Literal and blit.atom.ast_type == ASTType.BodyAggregate:
+                    for elem in blit.atom.elements:
+                        allvars.update(set(collect_ast(elem, "Variable")))
             needed.update((global_vars_inside_body(stm.body) - global_vars_inside_body(newbody)) & allvars)
             try:
                 new_conditions = gb.simplify_equalities(needed, unbound)
